@@ -1,7 +1,8 @@
 """C14 — run-length encoding is lossless and canonical: correspondence of the implementation with the Coq models."""
-from harness import fam_rle
+from harness import fam_rle, fam_rle2
 TRUSTED = fam_rle.TRUSTED
 ASSUME = ["integer values; float dtypes (NaN, -0.0) are covered by the bit-pattern instance in the thorough tier of the final framework"]
-RULE = "case kinds: rt; " + fam_rle.RULE
+RULE = "case kinds: rt slice bin concat (representation = canonical form); " + fam_rle.RULE
 def run(R, tier, rng):
-    fam_rle.run_family(R, tier, rng, set("rt".split()))
+    fam_rle2.run_c14(R, tier, rng)
+    fam_rle.run_family(R, tier, rng, set("rt slice bin concat".split()))
